@@ -68,7 +68,10 @@ class fibonacci_heap
         for (int i = 0; i < max_num_nodes; i++)
             nodes[i] = new fibonacci_heap_node;
 
-        Dn = 1 + (int)(log(ScalarType(max_num_nodes)) / log(2.));
+        // a node of rank d roots at least phi^d nodes (phi is the golden ratio), so ranks
+        // can reach floor(log_phi(n)) once decrease_key has cut children; one more slot
+        // is needed for the carry in consolidate()
+        Dn = 2 + (int)(log(ScalarType(max_num_nodes)) / log(1.618));
         A = (fibonacci_heap_node**)malloc(sizeof(fibonacci_heap_node*) * Dn);
         for (int i = 0; i < Dn; i++)
             A[i] = NULL;
